@@ -84,6 +84,8 @@ class ValueSets:
                         out.add(("f", r) if isinstance(r, float) else I(r))
                     elif t[1] in ("&", "|", "^"):
                         xv, yv = _num(x), _num(y)
+                        if not isinstance(xv, int) or not isinstance(yv, int):
+                            return TOP  # e.g. a None that an `x if .. else None` lets through: unknown, not a crash
                         out.add(I({"&": xv & yv, "|": xv | yv, "^": xv ^ yv}[t[1]]))
                     else:
                         return TOP
